@@ -252,6 +252,27 @@ func (vc *VC) call(ins ssa.Instruction, c *ssa.CallCommon, v *ssa.Call) {
 				if t, ok := env.vars[name]; ok { // callee parameter names denote the arguments
 					return t, true
 				}
+				if strings.HasSuffix(name, "_0") { // <param>_0: the value of a parameter at function entry
+					for _, p := range vc.fn.Params {
+						if p.Name()+"_0" == name {
+							return vc.vals[p], true
+						}
+					}
+				}
+				if strings.HasPrefix(name, "arg") { // arg0, arg1, ...: the call's arguments by position (receiver first)
+					var n int
+					if _, err := fmt.Sscanf(name, "arg%d", &n); err == nil && n >= 0 && n < len(args) && fmt.Sprintf("arg%d", n) == name {
+						return args[n], true
+					}
+				}
+				if name == "_k" { // index of the element the enclosing loop is processing at this call
+					if li := vc.innermostLoopOf(blk); li != nil {
+						if k, ok := vc.loopIndexTerm(li); ok {
+							return Term{S: k, Sort: "Int", T: types.Typ[types.Int]}, true
+						}
+					}
+					return Term{}, false
+				}
 				if t, ok := vc.resolveLocalBefore(name, blk, lim, h, nil); ok {
 					return t, true
 				}
@@ -730,6 +751,14 @@ func (vc *VC) appendCall(c *ssa.CallCommon, v *ssa.Call, pos token.Pos) {
 	}
 	if vc.isLocalSliceValue(c.Args[0], 0) {
 		vc.writeRoot = localMark
+		if v != nil && v.Block() != nil {
+			// an accumulator that is nil whenever the innermost loop is entered gets all its arrays inside that loop
+			if li := vc.innermostLoopOf(v.Block()); li != nil {
+				if ph := vc.phiRoot(c.Args[0], li, 0); ph != nil && vc.nilAtLoopEntry(ph) {
+					vc.writeRoot = ph
+				}
+			}
+		}
 	}
 	vc.setComp(ck, cs, fmt.Sprintf("(store %s %s %s)", E, narr, newA))
 	vc.writeRoot = nil
